@@ -213,15 +213,17 @@ MhaMasks == IF Big THEN {"none", "bhst", "b1st", "11st", "b11t", "st", "1t", "hs
 \* <<B, S, T, H, Dh>>  (T is used only without projections: with them key/value come from the same input)
 MhaSz == IF Big THEN {<<2, 3, 4, 2, 4>>, <<1, 1, 1, 1, 2>>} ELSE {<<2, 3, 4, 2, 4>>}
 MhaCfgs == {[fam |-> "mha", dt |-> dt, proj |-> pj, bq |-> bb[1], bk |-> bb[2], bv |-> bb[3], kfmt |-> kp[1], past |-> kp[2],
-             mask |-> m, qs |-> sf[1], ks |-> sf[2], qks |-> sf[3], sc |-> sf[4], nanfix |-> FALSE, preq |-> pq, rot |-> "none",
+             mask |-> m, qs |-> sf[1], ks |-> sf[2], qks |-> sf[3], sc |-> sf[4], nanfix |-> FALSE, preq |-> pq[1], preqpos |-> pq[2], rot |-> "none",
              B |-> z[1], S |-> z[2], T |-> (IF pj = "none" THEN z[3] ELSE z[2]), H |-> z[4], Dh |-> z[5]] :
             dt \in DT, pj \in {"none", "sep", "packed"}, bb \in MhaBias, kp \in {<<"t4", 0>>, <<"bshd", 0>>, <<"t4", 2>>},
             m \in MhaMasks,
             sf \in (IF Big THEN {<<"none", "none", "mul", "default">>, <<"div", "none", "none", "other">>} ELSE {<<"div", "none", "none", "other">>}),
-            pq \in BOOL, z \in MhaSz}
+            \* preq: the 3-D query is multiplied by a constant; preqpos: "after" its bias was added (the Mul feeds the head split) or
+            \* "before" (the bias Add feeds the head split: the Mul may NOT be folded into MultiHeadAttention.scale once the bias is an input)
+            pq \in {<<FALSE, "after">>, <<TRUE, "after">>, <<TRUE, "before">>}, z \in MhaSz}
            \cup
            {[fam |-> "mha", dt |-> dt, proj |-> "none", bq |-> "none", bk |-> "none", bv |-> "none", kfmt |-> "t4", past |-> pa,
-             mask |-> m, qs |-> "none", ks |-> "none", qks |-> "mul", sc |-> sc, nanfix |-> FALSE, preq |-> FALSE, rot |-> ro,
+             mask |-> m, qs |-> "none", ks |-> "none", qks |-> "mul", sc |-> sc, nanfix |-> FALSE, preq |-> FALSE, preqpos |-> "after", rot |-> ro,
              B |-> 2, S |-> 3, T |-> 3, H |-> 2, Dh |-> 4] :
             dt \in DT, pa \in {0, 2}, m \in {"none", "b1st", "st"}, sc \in {"default", "other"}, ro \in {"plain", "plain0", "inter"}}
 GqaCfgs == {[fam |-> "gqa", dt |-> dt, B |-> b, S |-> s, P |-> p, H |-> hh[1], Hkv |-> hh[2], Dh |-> dh, mask |-> m, sc |-> sc,
@@ -355,10 +357,12 @@ Bcast(c) == c.mask # "none" /\ (MaskRank(c) = 2 \/ (MaskRank(c) = 4 /\ MaskShape
 MhaSafe(c) == MaskSafe(c) /\ c.rot # "inter"
 MhaDevs(c) == MaskDevs(c) \cup (IF c.rot = "inter" THEN {"mha_rotary_interleaved_dropped"} ELSE {})
 \* ---- mha_scale.py: Mul(query, c) in front of MultiHeadAttention (single-output use)
-MhaScaleCode(c) == c.fam = "mha" /\ Has("com.microsoft::MultiHeadAttention") /\ Has("p:preq") /\ c.past = 0 /\ ~Bcast(c)
+\* the Mul must be the direct producer of the query input (a bias Add behind it hides it)
+MulFeedsMha(c) == c.preqpos = "after" \/ c.bq = "none"
+MhaScaleCode(c) == c.fam = "mha" /\ Has("com.microsoft::MultiHeadAttention") /\ Has("p:preq") /\ c.past = 0 /\ ~Bcast(c) /\ MulFeedsMha(c)
 \* ---- mha_bias.py: Add(., bias) feeding query/key/value of a one-output MultiHeadAttention without bias
 \* the query's Add is seen only when it feeds MultiHeadAttention directly (a remaining Mul(query, c) hides it)
-QBias(c) == IF Has("p:preq") THEN "none" ELSE c.bq
+QBias(c) == IF Has("p:preq") /\ MulFeedsMha(c) THEN "none" ELSE c.bq
 HasBiasAdd(c) == QBias(c) # "none" \/ c.bk # "none" \/ c.bv # "none"
 MhaBiasCode(c) == /\ c.fam = "mha" /\ Has("com.microsoft::MultiHeadAttention") /\ c.past = 0 /\ c.rot = "none"
                   /\ HasBiasAdd(c)
@@ -372,6 +376,7 @@ MhaBiasDevs(c) == IF MhaBiasSafe(c) THEN {} ELSE {"mha_bias_shape_unchecked"}
 \* ---- attention.py: MatMul (packed + Slice, or three) feeding a MultiHeadAttention that has a bias input
 AttentionCode(c) == /\ c.fam = "mha" /\ Has("com.microsoft::MultiHeadAttention") /\ c.proj \in {"sep", "packed"}
                     /\ c.past = 0 /\ fired["mha_bias"] > 0 /\ ~Bcast(c)
+                    /\ ~Has("p:preq")      \* a remaining Mul sits between the query projection and MultiHeadAttention
 \* ---- gqa.py: rotary on query and key, optional past, Unsqueeze/Expand/Reshape of key and value, SDPA with a mask
 \* input dims are symbolic: B = -1, S = -2, P = -3
 GqaCode(c) ==
